@@ -56,6 +56,9 @@ def write_keys(tmp):
             fh.write(key)
 
 
+CTMODE = ["class"]      # how the config type gets its key file: named by make_type ("class") or assigned to the instance cfg.t ("instance")
+
+
 def build(method, placement, tmp):
     import cincoconfig as cc
     s = cc.Schema()
@@ -67,7 +70,7 @@ def build(method, placement, tmp):
     ts.s = cc.SecureField(method=method)
     # an earlier type made from the same schema under the same name, with another key file, is discarded
     cc.make_type(ts, "CT3", key_filename=keypath(tmp, "sub2"))
-    CT = cc.make_type(ts, "CT3", key_filename=keypath(tmp, "ct") if "ct" in placement else None)
+    CT = cc.make_type(ts, "CT3", key_filename=keypath(tmp, "ct") if "ct" in placement and CTMODE[0] == "class" else None)
     s.t = CT
     s.ls = cc.ListField(cc.SecureField(method=method))
     item = cc.Schema()
@@ -90,6 +93,8 @@ def apply_placement(cfg, placement, tmp):
         cfg.sub._key_filename = keypath(tmp, "sub")
     if "deep" in placement:
         cfg.sub.deep._key_filename = keypath(tmp, "deep")
+    if "ct" in placement and CTMODE[0] == "instance":
+        cfg.t._key_filename = keypath(tmp, "ct")
 
 
 class Model:
@@ -108,12 +113,14 @@ class Model:
             return self.own["sub"] or root
         if pos == "sub.deep.s":
             return self.own["deep"] or self.own["sub"] or root
-        if pos == "t.s" or pos.startswith("ts["):
+        if pos == "t.s":
             return self.own["ct"] or root
+        if pos.startswith("ts["):        # items of the type: the type's own key file, which an instance-level assignment on cfg.t is not
+            return (self.own["ct"] if CTMODE[0] == "class" else None) or root
         raise ValueError(pos)
 
 
-OPS = ["assign-attr", "assign-tree", "assign-subdict", "same", "fresh", "files", "append", "rekey-root", "rekey-sub", "move-sub"]
+OPS = ["assign-attr", "assign-tree", "assign-subdict", "same", "fresh", "files", "append", "rekey-root", "rekey-sub", "move-sub", "adopt-item"]
 
 
 def histories(depth):
@@ -159,6 +166,7 @@ def jobs(tier):
             for method in b["methods"]:
                 for fmt in b["formats"]:
                     out.append({"name": "%s/%s/%s" % ("+".join(placement) or "none", method, fmt), "placement": list(placement), "method": method,
+                                "ctmode": "class" if fmt in ("json", "yaml", "bson") else "instance",
                                 "fmt": fmt, "plaintexts": b["plaintexts"], "depth": b["history_depth"],
                                 "new_process": tier == "thorough" or (method == "aes" and fmt == "json")})
     return out
@@ -172,6 +180,7 @@ os.environ["HOME"] = os.environ["VERIF_FIXED_HOME"] = %(home)r
 import cincoconfig
 cincoconfig.Config.DEFAULT_CINCOKEY_FILEPATH = os.path.join(%(home)r, ".cincokey")
 from mc.props import c03
+c03.CTMODE[0] = %(ctmode)r
 schema = c03.build(%(method)r, %(placement)r, %(tmp)r)
 cfg = c03.new_config(schema, %(placement)r, %(tmp)r)
 cfg.load(%(path)r, %(fmt)r)
@@ -192,7 +201,7 @@ def new_process_session(ctx, job, pname):
     path = os.path.join(tmp, "session." + fmt)
     cfg.save(path, fmt)
     want = read_secrets(cfg)
-    script = SESSION_SCRIPT % {"repo": core.REPO, "verif": core.VERIF, "home": core.home_dir(), "method": method, "placement": placement, "tmp": tmp, "path": path, "fmt": fmt}
+    script = SESSION_SCRIPT % {"repo": core.REPO, "verif": core.VERIF, "home": core.home_dir(), "method": method, "placement": placement, "tmp": tmp, "path": path, "fmt": fmt, "ctmode": CTMODE[0]}
     env = dict(os.environ, PYTHONHASHSEED="0")
     r = subprocess.run([_sys.executable, "-B", "-c", script], capture_output=True, text=True, env=env, timeout=120)
     ctx.transitions += 1
@@ -212,6 +221,7 @@ def run_job(job, ctx):
     if single:
         job = dict(single["jobparams_full"]); job["only"] = single["only"]
     only = job.get("only")
+    CTMODE[0] = job.get("ctmode", "class")
     if only is None and job.get("new_process") or (only is not None and only[1] == ["new-process"]):
         new_process_session(ctx, job, (only or [job["plaintexts"][0]])[0])
         if only is not None:
@@ -376,6 +386,8 @@ def run_history(ctx, job, pname, hist):
             c.sub._key_filename = keypath(t, m.own["sub"])
         if m.own["deep"]:
             c.sub.deep._key_filename = keypath(t, m.own["deep"])
+        if m.own["ct"] and CTMODE[0] == "instance":
+            c.t._key_filename = keypath(t, m.own["ct"])
 
     for i, op in enumerate(hist):
         ctx.transitions += 1
@@ -439,6 +451,17 @@ def run_history(ctx, job, pname, hist):
                 j = len(cfg.ts)
                 cfg.ts.append({"s": p2})
                 model.secrets.update({"items[%d].s" % n: p2, "items[%d].inner.s" % n: p, "ls[%d]" % k: p, "ts[%d].s" % j: p2})
+            elif op == "adopt-item":
+                # an item configuration that belongs to another root's list (other key file) is appended here as an object
+                other = cc.Config(build(method, placement, tmp), key_filename=keypath(tmp, "root2"))
+                other.items = [{"s": p2, "inner": {"s": p}}]
+                other.dumps(fmt)
+                it = other.items[0]
+                if cfg.items is None:
+                    cfg.items = []
+                n = len(cfg.items)
+                cfg.items.append(it)
+                model.secrets.update({"items[%d].s" % n: p2, "items[%d].inner.s" % n: p})
             elif op == "rekey-root":
                 cfg.dumps(fmt)                      # the key files have been used
                 cfg._key_filename = keypath(tmp, "root2")
